@@ -666,6 +666,13 @@ impl Scenario for C18 {
         ),
       });
     }
+    if violation.is_none() && a.panic.is_none() && a.group_terminals != b.group_terminals {
+      violation = Some(Violation {
+        rule: "c18.traces-differ".into(),
+        site: site_of(&case),
+        detail: format!("`{}`: the group consumers of group_by were told their terminals (key, 0 complete / 1 error) in the order {:?} in the local form and {:?} in the thread-safe form", a.trace.trim(), a.group_terminals, b.group_terminals),
+      });
+    }
     let violation_none = violation.is_none() && a.panic.is_none();
     let mut o = outcome(&case, &a, violation, a.recs.len() >= 1, vec![], vec![("locks_taken_by_threads_flavour", b.locks), ("info:same_sequence_but_delivery_times_differ", (violation_none && times_differ) as u64), ("info:same_sequence_but_is_closed_samples_differ", (violation_none && closed_differ) as u64)]);
     o.trace_hash = hash_mix(hash_mix(o.trace_hash, 0x5bd1e995), hash_run(&b));
